@@ -353,11 +353,21 @@ func (c *VirtualTable) Delete(value sqlite.Value) error {
 }
 
 func (c *VirtualTable) Begin() error {
+	started := false
 	if c.module.sc.txWriteTime.IsZero() {
 		c.module.sc.txWriteTime = time.Now()
 		c.module.sc.ResetContext()
+		started = true
 	}
-	return toSqlite(c.common.Begin(c.module.sc.ctx))
+	err := c.common.Begin(c.module.sc.ctx)
+	if err != nil && started {
+		// SQLite does not make a table whose xBegin failed part of the
+		// transaction: no xCommit or xRollback will follow to end what was
+		// started here, and the next statement would run under this time
+		c.module.sc.txWriteTime = time.Time{}
+		c.module.sc.ResetContext()
+	}
+	return toSqlite(err)
 }
 
 func (c *VirtualTable) Commit() error {
